@@ -66,7 +66,7 @@ func runRaceRunID(cfg *hx.RunCfg) error {
 				p.Close()
 			}
 		}()
-		d := time.Duration(g.Intn(600)) * time.Microsecond
+		d := time.Duration(g.Intn(1200)) * time.Microsecond
 		t0 := time.Now()
 		for time.Since(t0) < d {
 		}
